@@ -332,8 +332,9 @@ class CSSStyleSheet(cssutils.stylesheets.StyleSheet):
             {
                 'S': S,
                 'COMMENT': COMMENT,
-                'CDO': lambda *ignored: None,
-                'CDC': lambda *ignored: None,
+                # (as S and COMMENT: position in the sheet is unchanged)
+                'CDO': lambda expected, *ignored: max(1, expected or 0),
+                'CDC': lambda expected, *ignored: max(1, expected or 0),
                 'CHARSET_SYM': charsetrule,
                 'FONT_FACE_SYM': fontfacerule,
                 'IMPORT_SYM': importrule,
